@@ -111,6 +111,41 @@ def lSurvives (items : List LItem) : Nat → Nat
     | .ok _ => n + 1
     | .error _ => lSurvives items n
 
+/-! ## statement-level facts of the source this loop rests on (translator target `c14emit`) -/
+
+/-- the groups `Lowerer::program` puts into `Lir.functions` -/
+inductive EmitGroup where
+  | clones | drops | eqs   -- `generate_clones` / `generate_drops` / `generate_eqs`
+  | items                  -- the script's own constants and functions, in compilation order
+  deriving DecidableEq, Repr
+
+/-- what an arm of `codegen`'s define loop does -/
+inductive CgAct where
+  | define        -- `define_function`
+  | finalize      -- `finalize_definitions`
+  | lookupDrop    -- `functions.get("::generated::drop_<type_id>")`
+  | getFinalized  -- `get_finalized_function`
+  | run           -- the call through the initialiser's function pointer
+  | store         -- `roto_constants.insert`
+  deriving DecidableEq, Repr
+
+/-- every generated group is emitted, once, before the script's items: an
+initialiser may need any of them, and the first item may be a constant -/
+def helpersFirst (o : List EmitGroup) : Bool :=
+  match o.idxOf? .items with
+  | none => false
+  | some k =>
+    [EmitGroup.clones, .drops, .eqs].all (fun g => (o.take k).count g == 1 && (o.drop k).count g == 0)
+      && o.count .items == 1
+
+/-- what `lStep` models for a constant: define, finalize, fetch the drop
+function (looked up, then taken as finalized), fetch the initialiser, run it,
+store the constant -/
+def modelConstantArm : List CgAct := [.define, .finalize, .lookupDrop, .getFinalized, .getFinalized, .run, .store]
+
+/-- … and for a function -/
+def modelFunctionArm : List CgAct := [.define]
+
 /-! ## edge completeness: collected graph against the known dependency structure -/
 
 /-- every edge of `t` (what the program is known to mention) is an edge of `i`
